@@ -75,7 +75,12 @@ func checkPrecedence(t fataler, what string, res, winner, loser *sbom.Node) {
 		}
 		// list-valued attributes are compared as sets (whether a merge keeps repeated members is not stated)
 		want := hx.RefSetKey(winner.ProtoReflect(), fd, false)
-		if hx.FieldEmpty(winner.ProtoReflect(), fd) {
+		winnerEmpty := hx.FieldEmpty(winner.ProtoReflect(), fd)
+		if oo := fd.ContainingOneof(); oo != nil && !oo.IsSynthetic() {
+			// the alternative forms of a oneof are one attribute: it is empty when no member is set
+			winnerEmpty = winner.ProtoReflect().WhichOneof(oo) == nil
+		}
+		if winnerEmpty {
 			want = hx.RefSetKey(loser.ProtoReflect(), fd, false)
 		}
 		got := hx.RefSetKey(res.ProtoReflect(), fd, false)
